@@ -803,7 +803,10 @@ static inline long cmb_random_dice(const long a, const long b)
     cmb_assert (a < b);
 
     const double x = (double)(b - a + 1) * cmb_random();
-    return (long)(floor((double)a + x));
+
+    /* The sum can round up to b + 1 for a draw just below one, stay on the dice */
+    const long r = (long)(floor((double)a + x));
+    return (r <= b) ? r : b;
 }
 
 /**
